@@ -93,6 +93,20 @@ public:
         return m_keys;
     }
 
+#if defined(XALAN_C_VERIF_HOOKS)
+    // verification hook (add-only): sizes of the containers that scope guards, not reset(), restore (C06 check)
+    template<class VectorType>
+    void
+    verifSizes(VectorType&  v) const
+    {
+        typedef typename VectorType::value_type     value_type;
+        v.push_back(value_type("SO.m_numberResultsCache", long(m_numberResultsCache.size())));
+        v.push_back(value_type("SO.m_stringResultsCache", long(m_stringResultsCache.size())));
+        v.push_back(value_type("SO.m_keys", long(m_keys.size())));
+        v.push_back(value_type("SO.m_scratchVector", long(m_scratchVector.size())));
+    }
+#endif
+
     /**
      * Given a list of nodes, sort each node according to the criteria in the
      * keys.  The list is assumed to be in document order.
